@@ -19,7 +19,7 @@ P = {
          "Every signed endpoint discovered from the Register calls reaches its effects only through the success edge of a verify call that passes its own sig/identity/nonce, the registered method name and all request parameters; the wrappers and request.Verify have the required shape.",
          "Does not decide cryptographic strength or JSON canonicalisation.", "§2 C04"),
  "C05": ("canonical-predicate, lock/transaction-region and key-provenance rules over SSA; sibling agreement",
-         "Both NonceStore implementations reject canonically stored >= nonce, perform load-compare-store in one lock/transaction region, enforce the 15-minute freshness window before storing, and key by the identity only; wrappers pass the same identity/nonce to Verify and to the nonce store.",
+         "Both NonceStore implementations reject canonically stored >= nonce, perform load-compare-store in one lock/transaction region, enforce the 15-minute freshness window before storing, and key by the identity only; the persistent record outlives the nonce's freshness; nothing but CheckAndSaveNonce writes the nonce space; wrappers pass the same identity/nonce to Verify and to the nonce store and refuse on every nonce-store error.",
          "Does not decide behaviour across reopen (C13 rules) nor clock skew.", "§2 C05"),
  "C06": ("gate reachability over SSA CFGs",
          "In every wrapper the nonce store is reachable only past request.Verify's success edge; in every signed endpoint no effect is reachable with the verify success edges removed.",
@@ -28,10 +28,10 @@ P = {
          "Withdraw settles only past verify and the canonical minimum check on deposit+credit of the verified wallet, pays that sum (through the fee), consumes exactly the credit read on every path after a successful settle, inside one lock region; no ledger write on failure paths.",
          "Does not decide on-chain effects nor fee arithmetic.", "§2 C07"),
  "C08": ("canonical-predicate, provenance and sibling-agreement rules over SSA",
-         "requestHosts clamps and refuses non-positive counts, bounds the reply by the request, skips self and existing peers, accepts only hosts that acknowledged vipnode_whitelist for the requester; both drivers filter on host flag, kind and recency with agreeing limit semantics.",
+         "requestHosts clamps and refuses non-positive counts, bounds the reply by the request, skips self and existing peers, accepts only hosts that acknowledged vipnode_whitelist for the requester (every Service.Call implementation turns an error reply into an error); the tracked peer set survives re-registration; both drivers filter on host flag, kind and recency with agreeing limit semantics.",
          "Does not decide counts for concrete populations nor arrival orders.", "§2 C08"),
  "C09": ("control-dependence, lockset and must-pass-through rules over SSA",
-         "Closing a connection can only unregister that connection's own entry; both registry maps are written together under the pool mutex; the value registered is the caller's connection; the server calls the disconnect hook on every exit of the serve loop.",
+         "Closing a connection can only unregister that connection's own entry; both registry maps are written together under the pool mutex; the value registered is the caller's connection; the server calls the disconnect hook on every exit of the serve loop, which returns without blocking once the codec fails; no other site deletes registry entries.",
          "Does not decide closes racing in-flight requests.", "§2 C09"),
  "C10": ("lockset dataflow + freshness (ownership) analysis over the handler-reachable call graph (VTA)",
          "Every field of a mutex-bearing shared type that a handler writes is accessed under that mutex; no unsynchronised write to non-fresh shared state in handler scope; each badger method is exactly one transaction; no in-place big.Int mutation of shared snapshots; no blocking call under a lock.",
@@ -43,19 +43,19 @@ P = {
          "For each Store method both drivers have equal write/delete sets over the abstract key spaces, equal assigned fields and equal sentinel errors; gob decode targets are fresh.",
          "Does not decide value-level equality on arbitrary operation sequences.", "§2 C12"),
  "C13": ("transaction-region, error-propagation and API-contract (key lifetime) rules over SSA",
-         "Every badger method is one transaction, every write error inside a transaction reaches the closure's result, no Item.Key() slice is retained by a write, migrations run in one transaction, bump the version and touch only non-ledger prefixes.",
+         "Every badger method is one transaction, every write error inside a transaction reaches the closure's result, no Item.Key() slice is retained by a write, no transaction is nested in another, migrations run in one transaction, bump the version and touch only non-ledger prefixes (also inside helpers), and the pool binary backs every service with the one selected store.",
          "Does not decide crash points or durability (badger is trusted).", "§2 C13"),
  "C14": ("provenance, lockset and shape rules over SSA",
          "Replies are routed by the id of the very message written/received, requests are dispatched asynchronously with a buffered reply channel, handlers get their own connection in the context, waits are cancellable, ids are atomic, no blocking under Remote.mu, nil embedded responses are not dereferenced.",
          "Does not decide delivery orders or exactly-once handling under concrete schedules.", "§2 C14"),
  "C15": ("panic-site enumeration in the network-reachable scope (VTA call graph) using the compiler's unproven bounds checks (-d=ssa/check_bce) plus guard recognition",
-         "Every panic-capable construct reachable from a network message (unproven bounds checks, nil embedded message parts, make with unproven size, nil-map writes, type assertions, explicit panics, unguarded big.Int division) is discharged by a dominating guard or a named exception.",
+         "Every panic-capable construct reachable from a network message (unproven bounds checks, nil embedded message parts, make with unproven size, make sizes not bounded by what the process holds, nil-map writes, type assertions, explicit panics, unguarded big.Int division) is discharged by a dominating guard or a named exception.",
          "Does not decide panics inside third-party libraries, resource exhaustion or liveness.", "§2 C15"),
  "C16": ("exhaustive registry enumeration through go/types method sets + gate reachability in Server.Handle",
          "The names exposed by every network-facing registration equal the documented surface; Register applies the allow-list and naming rule; Handle invokes a method only past registry hit and successful positional parsing; arity checks are present.",
          "Does not decide JSON-to-Go decoding leniency per type.", "§2 C16"),
  "C17": ("ownership and lockset rules over SSA",
-         "A stream codec keeps its decoder (or its buffered remainder) across reads; the shipped gorilla codec serialises writes and reads under its mutexes; the binaries import only that codec.",
+         "A stream codec keeps its decoder (or its buffered remainder) across reads; the shipped gorilla codec serialises writes and reads under its mutexes; the binaries import only that codec; the framed gobwas codec discards the unread remainder before the next frame and flushes every write; the HTTP stub is a plain POST the transport never replays.",
          "Does not decide exactly-once/in-order over arbitrary chunkings.", "§2 C17"),
  "C18": ("gate reachability over the call graph, pairing and provenance rules over SSA",
          "Node mutators run only past a successful pool update; every invalid peer is both un-trusted and disconnected with the same id; strict mode keeps a local peer only on lookup-hit and equal host; the shortfall requested is NumHosts-len(ActivePeers) of the node's own kind; every returned host is dialled.",
